@@ -185,6 +185,11 @@ def r4_structure(P, rep, ctx):
     seg = [l for l in loops if norm(l.iter) == "str(relpath).split('/')"]
     ok = len(seg) == 1 and "curr[seg] = dict()" in norm(seg[0]) and "curr = curr[seg]" in norm(seg[0])
     rep.check(ok, "C19.R4", fi.qual, "the directory chain of every entry is materialised as nested dicts (empty directories appear)", fi.loc(), construct="directory chain", message="dir_hashsums does not create the nested dict chain for every entry")
+    g = ctx.cfg(fi)
+    cut = [n.idx for n in g.nodes if n.kind == "stmt" and isinstance(n.stmt, ast.Assign) and any("relpath" in norm(tt) for tt in n.stmt.targets) and "relpath.parent" in norm(n.stmt.value)]
+    ft = [t.idx for t in g.nodes if t.kind == "test" and norm(t.exprs[0]) in ("is_file or is_sym", "is_sym or is_file")]
+    rep.check(bool(cut) and bool(ft) and all(any(g.edge_dominates(t, "T", c) for t in ft) for c in cut), "C19.R4", fi.qual, "only files and symlinks are split into (parent chain, name); a directory contributes its full path (so empty directories appear)", fi.loc(),
+              construct="relpath cut only for files/symlinks", message="dir_hashsums cuts the last component off every entry, directories included: a directory is only recorded as parent of something below it, so empty directories vanish from the tree")
     stores = [st for st in walk_local(fi.node) if isinstance(st, ast.Assign) and any(isinstance(tt, ast.Subscript) and norm(tt.value) == "curr" for tt in st.targets)]
     vals = sorted({norm(s.value) for s in stores})
     rep.check(vals == ["dict()", "val"], "C19.R4", fi.qual, "only sub-dicts and the entry value are stored into the tree", fi.loc(), construct=f"stored values {vals}", message=f"dir_hashsums stores {vals} into the result")
